@@ -302,6 +302,13 @@ def _constants(case, tmp):
              "kTi": rng.randint(1, 28) / 29.0, "deltaRN0": rng.uniform(1.0, 4.0) / 3.0}
         exprs = {"vMin": ("-vMax", -b["vMax"]), "zMax": ("2*pi*R0", 2 * pi * b["R0"]), "deltaRTe": ("deltaRTi/3", b["deltaRTi"] / 3), "kTe": ("kTi*7", b["kTi"] * 7),
                  "deltaR": ("4.0*deltaRN0/deltaRTi", 4.0 * b["deltaRN0"] / b["deltaRTi"]), "kN0": ("kTe/(R0-rMax)", b["kTi"] * 7 / (b["R0"] - b["rMax"]))}
+        if case["seed"] % 2:
+            # the outer radius given through an expression, together with an explicit peak radius that is NOT the mid radius
+            width = rng.randint(5, 14) + 0.5
+            exprs["rMax"] = ("rMin+%r" % width, b["rMin"] + width)
+            del b["rMax"]
+            b["rp"] = b["rMin"] + rng.uniform(0.2, 0.4) * width
+            exprs["kN0"] = ("kTe/(R0-rMin)", b["kTi"] * 7 / (b["R0"] - b["rMin"]))
         d = dict(b, npts=[16, 16, 16, 16], dt=2, **{k: v[0] for k, v in exprs.items()})
         keys = list(d)
         for rep in range(4):
